@@ -67,9 +67,13 @@ class LongPoll(object):
         if response.response_type == ResponseType.NO_CHANGE:
             logging.debug("No Change in config.")
             self.config.tracepoints.update_no_change(response.ts_nanos)
-        else:
+        elif response.response_type == ResponseType.UPDATE:
             self.config.tracepoints.update_new_config(response.ts_nanos, response.current_hash,
                                                       convert_response(response.response))
+        else:
+            # the enum is open: a response type of a newer service arrives as a number. We cannot know what it
+            # means, least of all that our config is to be replaced by what it carries
+            logging.warning("Unknown poll response type %s, ignoring it.", response.response_type)
 
     def shutdown(self):
         """Shutdown the timer."""
